@@ -647,8 +647,10 @@ def r_sentence_loop(repo, rep, R, table_info):
                     d = {k[1]: val for k, val in fa[0][1] if k and k[0] == 'const'}
                     stk, scs = d.get(K['stack']), d.get(K['scores'])
                     if stk and scs and stk[0] == 'alloc' and scs[0] == 'alloc' and stk != scs:
-                        loopline = loop.lineno
-                        fresh_per_sentence = fresh_per_sentence and stk[2] > loopline and scs[2] > loopline
+                        # created by a statement of the loop body (a worker read in place keeps its own line numbers)
+                        inside = {getattr(n, 'lineno', None) for n in ast.walk(loop) if isinstance(n, ast.stmt)}
+                        at = lambda a_: a_[2][0] if isinstance(a_[2], tuple) else a_[2]
+                        fresh_per_sentence = fresh_per_sentence and at(stk) in inside and at(scs) in inside and at(stk) != loop.lineno != at(scs)
                         if v[0] == 'listcomp' and len(v[2]) == 1:
                             zi = v[2][0][0]
                             el = ('elem', zi, None)
@@ -832,7 +834,15 @@ def r_score_buffers(repo, rep, R):
     """the two score matrices are handed to the C++ search as raw pointers and read there densely, row after row: the
     Python-side buffers must be declared 2-d, float and C-contiguous (Cython then rejects anything else up front)."""
     mod, run = _run_fn(repo)
-    calls = [n for n in ast.walk(run) if isinstance(n, ast.Call) and src(n.func) == 'parse_sentence']
+    calls = [(n, {}) for n in ast.walk(run) if isinstance(n, ast.Call) and src(n.func) == 'parse_sentence']
+    if not calls:
+        # the per-sentence part may sit in a private module-level helper: its pointer parameters stand for what
+        # run() passes at the call site
+        for c in ast.walk(run):
+            h = mod.get(c.func.id) if isinstance(c, ast.Call) and isinstance(c.func, ast.Name) else None
+            if isinstance(h, ast.FunctionDef) and not c.keywords and len(c.args) == len(h.args.args):
+                bind = dict(zip([a.arg for a in h.args.args], c.args))
+                calls += [(n, bind) for n in ast.walk(h) if isinstance(n, ast.Call) and src(n.func) == 'parse_sentence']
     if not calls:
         raise AnalysisError('%s: run() does not call parse_sentence' % REL)
     decls = {}
@@ -847,9 +857,11 @@ def r_score_buffers(repo, rep, R):
                             decls[x.id] = n.value.args[0].value
                         elif t is x:
                             assigns.setdefault(x.id, []).append(n.value)
-    for call in calls:
+    for call, bind in calls:
         for idx, what in ((0, 'tag'), (1, 'dependency')):
             e = call.args[idx]
+            if isinstance(e, ast.Name) and e.id in bind:
+                e = bind[e.id]
             hops = 0
             while isinstance(e, ast.Name) and len(assigns.get(e.id, [])) == 1 and hops < 4:
                 e = assigns[e.id][0]
